@@ -22,7 +22,7 @@ def extra_step(chk):
        compiled with `go build` (gc) in a scratch module against the repo copy; gc's verdict must equal go/types';
     2. the witness program of every known finding is built and RUN (the safe-type value must really carry the
        run-time string), and the ParseFS confinement probe is run (rooted / dot-dot patterns must fail)."""
-    info, errs = {}, []
+    info, errs, fails = {}, [], []
     try:
         gb = _run_json([_APIPROBE, "gobuild", chk.out, chk.tier, os.path.join(chk.out, "gobuild")])
         info.update({k: gb[k] for k in ("gc_programs", "gc_compiles", "gc_rejected")})
@@ -35,14 +35,18 @@ def extra_step(chk):
         rw = _run_json([_APIPROBE, "run", os.path.join(chk.out, "apirun")])
         info["runtime_witnesses"] = {k: v["ok"] for k, v in rw.items()}
         info["runtime_witness_output"] = {k: v["output"][:300] for k, v in rw.items()}
-        if not rw.get("parsefs-confined", {}).get("ok"):
+        if not rw.get("parsefs-confined", {}).get("ok") and "RESULT false" in rw.get("parsefs-confined", {}).get("output", ""):
+            # the probe program ran and a dynamic pattern produced a template: that program is the failing input
+            fails.append({"op": "apiprobe run parsefs-confined (tools/apiprobe/main.go, program `parsefs-confined`)",
+                          "real": rw["parsefs-confined"]["output"][:1500], "oracle": "fail:dynamic-pattern-reached-files-outside-the-trustedfs"})
+        elif not rw.get("parsefs-confined", {}).get("ok"):
             errs.append("ParseFS confinement probe failed (a dynamic pattern left the TrustedFS, or the probe did not run): "
                         + rw.get("parsefs-confined", {}).get("output", "")[:400])
     except Exception as e:  # noqa: BLE001
         errs.append("apiprobe: %s" % e)
     if errs:
         info["extra_error"] = "; ".join(errs)
-    return (not errs), info, []
+    return (not errs), info, fails
 
 
 CFG = {
